@@ -96,19 +96,28 @@ func (is *indexSearch) getTSIDBySeriesKey(indexkey []byte) (uint64, error) {
 	kb.B = append(kb.B, indexkey...)
 	kb.B = append(kb.B, kvSeparatorChar)
 	ts.Seek(kb.B)
-	if ts.NextItem() {
+	// A series that was deleted and written again owns one item per tsid it ever had:
+	// answer with the one that is not deleted (the deleted one only if there is no other).
+	deleted := is.idx.GetDeletedTSIDs()
+	var pid uint64
+	found := false
+	for ts.NextItem() {
 		if !bytes.HasPrefix(ts.Item, kb.B) {
-			// Nothing found.
-			return 0, io.EOF
+			break
 		}
 		v := ts.Item[len(kb.B):]
-		pid := encoding.UnmarshalUint64(v)
-
-		// Found valid dst.
-		return pid, nil
+		pid = encoding.UnmarshalUint64(v)
+		found = true
+		if deleted == nil || !deleted.Has(pid) {
+			// Found valid dst.
+			return pid, nil
+		}
 	}
 	if err := ts.Error(); err != nil {
 		return 0, fmt.Errorf("error when searching TSID by seriesKey; searchPrefix %q: %w", kb.B, err)
+	}
+	if found {
+		return pid, nil
 	}
 	// Nothing found
 	return 0, io.EOF
